@@ -9,7 +9,7 @@ package internal
 // Exactly the type specs whose type expression is an interface type or a generic
 // instantiation are recorded, in visiting order; function bodies are not entered, so
 // function-local types are never candidates.
-//@ func (*NodeVisitor).Visit props=C07,C02
+//@ func (*NodeVisitor).Visit props=C07,C02,C09
 //@   let isTS = dyn(node) == tagof(*ast.TypeSpec)
 //@   let ts = unbox(*ast.TypeSpec, node)
 //@   let okKind = dyn(ts.Type) == tagof(*ast.InterfaceType) || dyn(ts.Type) == tagof(*ast.IndexExpr) || dyn(ts.Type) == tagof(*ast.IndexListExpr)
@@ -29,8 +29,13 @@ package internal
 //@ func (*Parser).ParsePackages props=C07,C09,C02
 //@   site NewInterface: obj != nil && types.IsInterface(obj.Type()) && dyn(obj.Type()) == tagof(*types.Named) && typ.Obj().Pkg() != nil
 //@   site#args NewInterface: $0 == typ.Obj().Name() && $1 == file && $2 == fileSyntax && $3 == pkg && $4 == nil
+//@   assigns p.conf, fresh
+//@   ensures#pkgs err == nil ==> (forall k int :: 0 <= k && k < len(result) ==> result[k] != nil && fresh(result[k]) && len(result[k].Pkg.GoFiles) > 0 && result[k].Config == nil)
 //@   returns#loaderrors err == nil ==> (forall j int :: 0 <= j && j < len(packages) && len(packages[j].GoFiles) != 0 ==> len(packages[j].Errors) == 0)
 //@   loop 0: invariant forall j int :: 0 <= j && j < $i && len(packages[j].GoFiles) != 0 ==> len(packages[j].Errors) == 0
+//@   loop 0: invariant#pkgs forall k int :: 0 <= k && k < len(interfaces) ==> interfaces[k] != nil && fresh(interfaces[k]) && len(interfaces[k].Pkg.GoFiles) > 0 && interfaces[k].Config == nil
+//@   loop 2: invariant#pkgs len(pkg.GoFiles) > 0 && (forall k int :: 0 <= k && k < len(interfaces) ==> interfaces[k] != nil && fresh(interfaces[k]) && len(interfaces[k].Pkg.GoFiles) > 0 && interfaces[k].Config == nil)
+//@   loop 3: invariant#pkgs len(pkg.GoFiles) > 0 && (forall k int :: 0 <= k && k < len(interfaces) ==> interfaces[k] != nil && fresh(interfaces[k]) && len(interfaces[k].Pkg.GoFiles) > 0 && interfaces[k].Config == nil)
 
 // ---- C12: template-data is validated at every level before anything is produced ---------------
 //@ define validTD(schema *gojsonschema.Schema, td template.TemplateData) bool = second(schema.Validate(gojsonschema.NewGoLoader(td))) == nil && schema.Validate(gojsonschema.NewGoLoader(td)).Valid()
@@ -45,6 +50,7 @@ package internal
 //@ func (*TemplateGenerator).format props=C09,C01
 //@   ensures g.formatter != FormatGoImports && g.formatter != FormatGofmt && g.formatter != FormatNoop ==> err != nil
 //@   ensures g.formatter == FormatNoop ==> err == nil && result == src
+//@   assigns nothing
 
 // ---- remote templates and schemas (C12) -------------------------------------------------------
 // content(url): what a download of url yields during this run (assumed stable for the run).
@@ -158,7 +164,7 @@ package internal
 //@ axiom parselax_nonnil: forall n string, d []byte, f modfile.VersionFixer :: second(modfile.ParseLax(n, d, f)) == nil ==> modfile.ParseLax(n, d, f) != nil
 //@ func findPkgPath props=C01,C09,C10
 //@   safety fs-frame
-//@   requires dirPath != nil
+//@   requires true
 //@   site MkdirAll: $recv == dirPath && called("MkdirAll") == 1
 //@   loop 0: invariant 0 <= i && i <= 1000 && cursor != nil
 //@   loop 0: decreases 1000 - i
@@ -167,10 +173,11 @@ package internal
 
 // The mock is "in package" exactly when it has the source package's name and lives in its directory.
 //@ func NewTemplateGenerator props=C01,C09
-//@   requires srcPkg != nil && len(srcPkg.GoFiles) > 0 && outPkgFSPath != nil
+//@   requires len(srcPkg.GoFiles) > 0
 //@   ensures#fields err == nil ==> result != nil && result.templateName == templateName && result.templateSchema == templateSchema && result.requireSchemaExists == requireSchemaExists
 //@         && result.formatter == formatter && result.pkgConfig == pkgConfig && result.pkgName == pkgName && result.remoteTemplateCache == remoteTemplateCache
 //@   ensures#registry err == nil ==> result.registry != nil && fresh(result.registry) && RegInv(result.registry) && result.registry.inPackage == result.inPackage && result.registry.srcPkg == srcPkg
+//@   assigns fresh
 //@   returns#inpackage err == nil ==> (inPackage == (pkgName == srcPkg.Name && pathlib.NewPath(srcPkg.GoFiles[0]).Parent().Equals(now(outPkgFSPath)))) && reg.dstPkgPath == outPkgPath
 //@   returns#notinpkg err == nil && pkgName != srcPkg.Name ==> !inPackage
 
@@ -181,14 +188,16 @@ package internal
 //@ define ifaceOf(r *template.Registry, name string) *types.Interface = unbox(*types.Interface, r.srcPkg.Types.Scope().Lookup(name).Type().Underlying()).Complete()
 //@ func (*TemplateGenerator).Generate props=C12,C10,C02,C09,C14
 //@   safety fs-frame
-//@   requires g.registry != nil && allocated(g.registry) && RegInv(g.registry) && g.registry.srcPkg != nil && g.pkgConfig != nil && g.remoteTemplateCache != nil && CacheInv(g.remoteTemplateCache)
-//@   requires forall k int :: 0 <= k && k < len(interfaces) ==> interfaces[k] != nil && interfaces[k].Config != nil && interfaces[k].Config.StructName != nil && interfaces[k].Pkg != nil
+//@   requires g.registry != nil && allocated(g.registry) && RegInv(g.registry) && g.remoteTemplateCache != nil && CacheInv(g.remoteTemplateCache)
+//@   requires forall k int :: 0 <= k && k < len(interfaces) ==> interfaces[k] != nil && interfaces[k].Config != nil
 //@   site#validated format: schema != nil ==> (validTD(schema, data.TemplateData) && (forall k int :: 0 <= k && k < len(data.Interfaces) ==> validTD(schema, data.Interfaces[k].TemplateData)))
 //@   site#schemaneeded format: (!isRemote(g.templateName) || g.requireSchemaExists) ==> schema != nil
 //@   site#order format: called("getTemplate") == 1 && called("text/template.(*Template).Execute") == 1 && lastErr("text/template.(*Template).Execute") == nil
 //@   site#filedata validateSchema: $1 == data && data.TemplateData == g.pkgConfig.TemplateData && len(data.Interfaces) == len(interfaces) && $2 == schema
 //@   site#methods methodData: $1 == iface.Method(i) && $2 == ifaceMock.Config && iface == ifaceOf(g.registry, ifaceMock.Name)
 //@   ensures#nobytes err != nil ==> len(result) == 0
+//@   ensures#cache err == nil ==> CacheInv(g.remoteTemplateCache)
+//@   assigns g.registry.imports, g.registry.importQualifiers, g.remoteTemplateCache, fields(RemoteTemplate), fields(template.Var), fresh
 //@   returns#formatted err == nil ==> called("format") == 1
 //@   loop 0: invariant g.registry == old(g.registry) && RegInv(g.registry) && g.registry.srcPkg == old(g.registry.srcPkg) && len(mockData) == $i && GenFrame(g) && called("getTemplate") == 0 && called("format") == 0 && called("text/template.(*Template).Execute") == 0
 //@   loop 0: invariant#cache g.remoteTemplateCache == old(g.remoteTemplateCache) && CacheInv(g.remoteTemplateCache) && g.pkgConfig == old(g.pkgConfig)
